@@ -7,7 +7,10 @@ import (
 	"bytes"
 	"context"
 	"crypto"
+	"crypto/ecdsa"
+	"crypto/ed25519"
 	"crypto/rand"
+	"crypto/rsa"
 	"crypto/x509"
 
 	"github.com/pion/dtls/v3/internal/ciphersuite"
@@ -377,6 +380,14 @@ func flight4Generate(
 			return nil, &alert.Alert{Level: alert.Fatal, Description: alert.InternalError}, dtlserrors.ErrInvalidPrivateKey
 		}
 
+		// The cipher suite list was filtered with the default certificate; the
+		// certificate chosen for this ClientHello (server name, callback) may use
+		// another key type. Never serve it under a suite it does not fit.
+		if !signerFitsCertificateType(signer, state.CipherSuite.CertificateType()) {
+			return nil, &alert.Alert{Level: alert.Fatal, Description: alert.HandshakeFailure},
+				dtlserrors.ErrNoAvailableCertificateCipherSuite
+		}
+
 		// Find compatible signature scheme
 		signatureHashAlgo, err := signaturehash.SelectSignatureScheme(cfg.LocalSignatureSchemes, signer)
 		if err != nil {
@@ -506,4 +517,17 @@ func serverCIDExtension(state *dtlsstate.State12, cfg *dtlsconfig.HandshakeConfi
 	}
 
 	return &extension.ConnectionID{CID: cid}
+}
+
+// signerFitsCertificateType reports whether the key of the served certificate
+// is of the type the negotiated cipher suite authenticates with.
+func signerFitsCertificateType(signer crypto.Signer, certType clientcertificate.Type) bool {
+	switch signer.Public().(type) {
+	case ed25519.PublicKey, *ecdsa.PublicKey:
+		return certType == clientcertificate.ECDSASign
+	case *rsa.PublicKey:
+		return certType == clientcertificate.RSASign
+	default:
+		return true
+	}
 }
